@@ -13,3 +13,7 @@ CONSTANTS
   Pres = {"none", "hop"}
   Maps = {"none", "cover", "other"}
   MapRebuildLossy = FALSE
+  Sibs = {"none"}
+  Vias = {"seed"}
+  SkipBase = FALSE
+  GcByPrefix = FALSE
